@@ -77,6 +77,63 @@ def run_c19(tier):
             mk["digest"] = name(b)
             if b != checked:
                 v.disagree("fixpoint", {"command": "make self-compile"}, {"what": "the Makefile target regenerates a different file than the checked-in one"})
+    # the same regeneration from checkouts that differ only in where and how the files are stored: a path with a comma, an equals
+    # sign and a blank (absolute -i / -o paths), and a tree whose configuration files are symbolic links into another directory
+    variants = {}
+    if not v.violations:
+        import glob as _glob
+        import subprocess
+        odd = os.path.join(wd, "os=linux,arch=amd64", "my tree")
+        shutil.copytree(core.REPO, odd, ignore=shutil.ignore_patterns(".git"))
+        farm = os.path.join(wd, "farm")
+        shutil.copytree(core.REPO, farm, ignore=shutil.ignore_patterns(".git"))
+        store = os.path.join(wd, "store")
+        os.makedirs(store)
+        for y in sorted(_glob.glob(os.path.join(farm, "internal/gontainer/*.yaml"))):
+            shutil.move(y, os.path.join(store, os.path.basename(y)))
+            os.symlink(os.path.join(store, os.path.basename(y)), y)
+        for label, tree_v, absolute in (("comma-in-path-absolute", odd, True), ("comma-in-path-relative", odd, False), ("symlinked-configuration", farm, False)):
+            pre = os.path.join(tree_v, "") if absolute else ""
+            args = ["-i", pre + "internal/gontainer/gontainer.yaml", "-i", pre + "internal/gontainer/gontainer_*.yaml", "-o", pre + "internal/gontainer/gontainer.go", "-q"]
+            p = subprocess.run([os.path.join(wd, "tool0"), "build"] + args, cwd=tree_v, stdout=subprocess.PIPE, stderr=subprocess.STDOUT, timeout=300)
+            variants[label] = p.returncode
+            if p.returncode != 0:
+                v.disagree("regeneration-fails", {"variant": label, "args": args}, {"rc": p.returncode, "out": p.stdout.decode("utf8", "replace")[-500:]})
+                continue
+            b = strip_version(open(os.path.join(tree_v, "internal/gontainer/gontainer.go"), "rb").read())
+            variants[label] = name(b)
+            if b != checked:
+                v.disagree("fixpoint", {"variant": label, "args": args}, {"what": "regeneration from this checkout differs from the checked-in file",
+                                                                          "size": [len(checked), len(b)]})
+    # ... and from a process that hardly gets the CPU (suspended for 1.2 s after every 4 ms of running, so that every step of some length is interrupted): what is written must not depend on how long a step takes
+    if not v.violations:
+        import signal
+        import subprocess
+        slow = os.path.join(wd, "slow")
+        shutil.copytree(core.REPO, slow, ignore=shutil.ignore_patterns(".git"))
+        p = subprocess.Popen([os.path.join(wd, "tool0"), "build"] + YAML_ARGS + ["-o", "internal/gontainer/gontainer.go", "-q"], cwd=slow,
+                             stdout=subprocess.PIPE, stderr=subprocess.STDOUT)
+        t_end = time.time() + 120
+        while p.poll() is None and time.time() < t_end:
+            try:
+                os.kill(p.pid, signal.SIGSTOP)
+                time.sleep(1.2)
+                os.kill(p.pid, signal.SIGCONT)
+            except ProcessLookupError:
+                break
+            time.sleep(0.004)
+        if p.poll() is None:
+            p.kill()
+            variants["slow-motion"] = "still running after 120 s (not judged)"
+        else:
+            variants["slow-motion"] = p.returncode
+            if p.returncode != 0:
+                v.disagree("regeneration-fails", {"variant": "slow-motion"}, {"rc": p.returncode, "out": p.stdout.read().decode("utf8", "replace")[-500:]})
+            else:
+                b = strip_version(open(os.path.join(slow, "internal/gontainer/gontainer.go"), "rb").read())
+                variants["slow-motion"] = name(b)
+                if b != checked:
+                    v.disagree("fixpoint", {"variant": "slow-motion"}, {"what": "a starved process regenerates a different file", "size": [len(checked), len(b)]})
     accepted = None
     if not v.violations:
         r = core.run_tlc("Trace_SelfHost.tla", "Trace_SelfHost.cfg", workers=1, timeout=300, want_emits=False,
@@ -97,7 +154,7 @@ def run_c19(tier):
                        "against SelfHost.tla, whose invariants Fixpoint (every regeneration equals the checked-in file) and "
                        "Functional (same tool, same output) are evaluated at every step." % rounds,
         "evaluations": len([e for e in trace if e["ev"] == "regen"]), "distinct_nontrivial": 2,
-        "samples": [trace], "traces_validated_against_impl": 1, "trace_accepted": accepted, "make_self_compile": mk,
+        "samples": [trace], "traces_validated_against_impl": 1, "trace_accepted": accepted, "make_self_compile": mk, "checkout_variants": variants,
     }, time.time() - t0, violations=len(v.violations),
         assumptions=["the regeneration command is the Makefile's self-compile target (patterns and their order)"])
     return rc
